@@ -21,4 +21,8 @@ def render : Option (List Factor) → Term
   | some [] => [litOne]
   | some fs => fs
 
+/-- the reference derivative of a whole term list: term by term, same length, same order -/
+def dTerms (ts : List Term) (wrt : List String) : List Term :=
+  ts.map (fun t => render (dMany (some t) wrt))
+
 end FormulaicVerif.Spec
